@@ -1,7 +1,8 @@
 SPECIFICATION Spec
 CONSTANTS
-  Pool = {"plain", "caller", "main0", "bad_type", "calls_bad", "ct_good", "ct_bad", "ct_many", "ct_expr", "closure", "use_generic", "use_mono", "use_struct", "use_over", "long_names", "loops"}
+  Pool = {"plain", "caller", "main0", "bad_type", "calls_bad", "ct_good", "ct_bad", "ct_many", "ct_intr", "ct_exit", "ct_expr", "closure", "use_generic", "use_mono", "use_struct", "use_over", "effects", "long_names", "loops"}
   EntryOps = {"main0", "caller"}
+  FirstOps = {}
   MaxLen = 2
   EmitHist = TRUE
 INVARIANT NoStaleRead
